@@ -401,6 +401,34 @@ def _config_sessions(case, ctx, res, path, given):
                 break
     if judged:
         res.nontrivial("config", case["init"], case["steps"], case["method"], nested)
+    # the configuration is pointed at another key file while a context of the old one is still open (a batch of saves inside
+    # `with cfg._keyfile:`): what is written from then on is written under the NEW file's 32 bytes, verbatim
+    now = _read(path)
+    if now is None or len(now) != 32:
+        return
+    second = os.path.join(ctx.dir, "second.key")
+    with open(second, "wb") as fp:
+        fp.write(bytes((b * 5 + 17) % 256 for b in now))
+    secret = "switch-%s" % case["steps"][-1][2]
+    try:
+        with cfg._keyfile:
+            cfg._key_filename = second
+            if nested:
+                cfg.db.secret = secret
+            else:
+                cfg.secret = secret
+            blob = cfg.dumps("json")
+        fresh = schema(key_filename=second)
+        fresh.loads(blob, "json")
+        got = fresh.db.secret if nested else fresh.secret
+    except Exception as exc:
+        res.viol("M-key", "key-file-switched-inside-a-context", "after cfg._key_filename = <second key file> inside `with cfg._keyfile:` "
+                 "the document does not load under the second key file: %r" % (exc,))
+        return
+    res.count("key_file_switched_inside_an_open_context")
+    if got != secret:
+        res.viol("M-key", "key-file-switched-inside-a-context", "after cfg._key_filename = <second key file> inside `with cfg._keyfile:` "
+                 "the secret written reads back as %r under the second key file" % (got,))
 
 
 def _scan(obj, key, depth=0, seen=None):
